@@ -26,7 +26,7 @@ MANIFEST = {
             "|x - x*| <= |inv(op A)| W componentwise for the weights the code builds; the dlacon_ value never exceeds that "
             "exact norm (ferr_estimator_partial: domination itself is not a theorem). Tie: bit-exact PrimFloat replay of real "
             "dgsrfs runs + exact-rational oracle.",
-    "note": "FERR x slack dominating the true error is decided by the oracle only (Hager's estimator has no guaranteed ratio).",
+    "note": "FERR x slack dominating the true error is decided by the oracle only (Hager's estimator has no guaranteed ratio). DOFACT calls are also entered with equed/R/C left by an unrelated equilibrated call (outputs of the call): the returned flag must be NOEQUIL.",
     "technique": "Coq model + vm_compute (PrimFloat) correspondence + exact rational certificate",
 }
 SLACK = 40.0            # TESTING/pddrive.c: #define THRESH 40.0
